@@ -555,11 +555,17 @@ func (g *gen) genFaults(c *Config) []*Fault {
 	o := g.o
 	nf := g.weighted(StFault, o.FaultBudget[:])
 	var fs []*Fault
+	if ov := g.t.Override; ov != nil {
+		nf = 1
+	}
 	for i := 0; i < nf && len(c.Regs) > 0; i++ {
 		f := &Fault{Kind: g.weighted(StFault, o.WFault[:])}
 		f.Reg = c.Regs[g.n(StFault, len(c.Regs))].ID
 		f.N = g.n(StFault, 3)
 		f.PanicKind = g.n(StFault, 5)
+		if ov := g.t.Override; ov != nil {
+			f.Kind, f.Reg, f.N, f.PanicKind = ov.Kind, ov.Reg, ov.N, ov.PanicKind
+		}
 		f.Err = &sentinelErr{Site: fmt.Sprintf("r%d#%d/%s", f.Reg, f.N, faultNames[f.Kind])}
 		switch f.PanicKind {
 		case 0:
